@@ -158,6 +158,17 @@ def check(ctx: Ctx) -> list[RuleResult]:
         r3.fail(f"{rc.short}:packets-filtered-before-restore", rc.loc(n0), f"_restore_cached_packets re-binds/mutates its `{pk}` argument (`{norm(getattr(n0, 'parent', n0))[:70]}`) before replaying it: packets the snapshot kept (never-expiring schedule fragments, 313F, anything taken with include_expired) are not restored, so a second snapshot differs from the first")
     else:
         r3.ok({"packets_argument": "replayed as given (never re-bound or mutated)"})
+    # the restore is over when the replay is: it awaits the temporary transport's reader task itself. A bounded wait in its place
+    # (wait_for_connection_lost() has a 1 s default) raises for a large cache and resumes the engine while the temporary reader is
+    # still feeding stale packets into the live gateway
+    r3.instances += 1
+    r3.nontrivial += 1
+    aw = [n for n in own_nodes(rc.node) if isinstance(n, ast.Await) and isinstance(n.value, ast.Call) and isinstance(n.value.func, ast.Attribute) and n.value.func.attr == "get_extra_info" and n.value.args and "READER_TASK" in norm(n.value.args[0]).upper()]
+    bounded = [n for n in own_nodes(rc.node) if isinstance(n, ast.Await) and isinstance(n.value, ast.Call) and isinstance(n.value.func, ast.Attribute) and n.value.func.attr in ("wait_for_connection_lost", "wait_for_connection_made", "wait_for", "wait")]
+    if aw and not bounded:
+        r3.ok({"restore_waits_for": norm(aw[0].value)[:60]})
+    else:
+        r3.fail(f"{rc.short}:restore-not-awaiting-the-reader", rc.loc((bounded or [rc.node])[0]), f"_restore_cached_packets {'waits with a timeout (`' + norm(bounded[0].value)[:50] + '`)' if bounded else 'no longer awaits the reader task'}: a replay that outlasts the wait makes the restore raise and resume the engine while cached (stale) packets are still being fed into the live gateway")
     # ...and they are replayed into a started engine: Gateway.start() brings the engine up first (restore relies on the engine's
     # clock/transport to age the packets consistently; restored before the transport exists they are aged against the wall clock)
     gst = repo.func(f"{G}.Gateway.start")
